@@ -50,7 +50,9 @@ def shard_setup(tier):
     import joblib._parallel_backends as jb
     import joblib.parallel as jp
     from vlib import yieldinj
-    _S["inj"] = yieldinj.Injector([jp, jb], 0).__enter__()
+    instr = [jp.Parallel._start.__code__, jp.Parallel.dispatch_next.__code__, jp.BatchCompletionCallBack._dispatch_new.__code__,
+             jp.Parallel._wait_retrieval.__code__]
+    _S["inj"] = yieldinj.Injector([jp, jb], 0, instr_cos=instr, p_instr=0.0).__enter__()
 
 
 def cases(tier, seed):
@@ -97,7 +99,9 @@ def run_scripted(sid, ctx):
     ctl = AutoController(be, harness.rng_for(ctx.seed, ID, "ctl", sid), nthreads=ncb, jitter=rng.random() < 0.7)
     inj = _S["inj"]
     inj.reseed(ctx.seed * 7919 + sid, p_yield=rng.choice([0.0, 0.02, 0.05]), p_sleep=rng.choice([0.0, 0.005, 0.01]))
+    inj.p_instr = rng.choice([0.0, 0.1, 0.3])   # instruction-level pre-emption in the few functions that update shared flags without the lock
     y0 = inj.yields
+    i0 = inj.instr_yields
     with LOGLOCK:
         del EXECLOG[:]
     src = Src(N, lambda i: delayed(task)(i, tag), trace, widen=rng.choice([0, 0.0001, 0.0003]))
@@ -137,6 +141,7 @@ def run_scripted(sid, ctx):
         return
     ctl.shutdown()
     ctx.count("injected_yields", inj.yields - y0)
+    ctx.count("injected_instruction_level_yields", inj.instr_yields - i0)
     ev = trace.snapshot()
     order = [e["bid"] for e in ev if e["k"] == "complete"]
     ctx.count("sync_in_submit_completions", sum(1 for e in ev if e["k"] == "complete" and e["sync"]))
